@@ -190,3 +190,18 @@ def run(ctx):
             ctx.count("settings_given_as_numpy_scalars")
         ctx.count("random_cases")
         one(ctx, dtw, dtw_cc, np, s1, s2, kw, psi_neg=rng.random() < 0.5, keep=rng.random() < 0.4, nd=nd)
+    # scale-up slice: 20-70 point structured series (several shifted rows in the compact layout, long constant runs)
+    for _ in range(ctx.scale(40, 400)):
+        r = rng.randint(20, 70)
+        c = r if rng.random() < 0.3 else max(2, r + rng.choice([-1, 1]) * rng.randint(1, 25))
+        nd = rng.choice([0, 0, 2])
+        if nd:
+            s1 = np.array([[v, 1.0 - v] for v in gen.structured_series(rng, r)])
+            s2 = np.array([[v, 1.0 - v] for v in gen.structured_series(rng, c)])
+        else:
+            s1, s2 = np.array(gen.structured_series(rng, r)), np.array(gen.structured_series(rng, c))
+        kw = gen.rand_settings(rng, r, c, with_mld=False)
+        if kw.get("window"):
+            kw["window"] = rng.choice([1, 2, 3, 5, abs(r - c) + 1, max(r, c) // 3, max(r, c) // 2]) or 1
+        ctx.count("long_series_cases")
+        one(ctx, dtw, dtw_cc, np, s1, s2, kw, psi_neg=rng.random() < 0.5, keep=rng.random() < 0.4, nd=nd)
